@@ -3,6 +3,7 @@ package smfspace
 import (
 	"fmt"
 
+	"gitlab.com/gomidi/midi/v2"
 	"gitlab.com/gomidi/midi/v2/internal/verifh/refsmf"
 
 	"gitlab.com/gomidi/midi/v2/internal/verifh/engine"
@@ -300,4 +301,73 @@ func ValueSweeps() []SweepCase {
 		}
 	}
 	return out
+}
+
+// ScalarSweeps enumerates one scalar dimension completely on a fixed small
+// file: every metric resolution, every SMPTE division, delta boundaries of
+// the uint32 range (maxDelta limits them for C03), payload lengths 0..300 and
+// around every VLQ width and block-size boundary for text, sysex, escape and
+// unknown meta. part/parts spread the work over processes.
+func ScalarSweeps(part, parts int, maxDelta uint64, f func(SweepCase)) {
+	al := FullAlphabet()
+	base := []Op{{Kind: OpAdd, D: 0, M1: 9}, {Kind: OpAdd, D: 1, M1: 0}, {Kind: OpAdd, D: 130, M1: 1}, {Kind: OpClose, D: 2}, {Kind: OpSMFAdd}}
+	for r := 1 + part; r <= 32767; r += parts {
+		for _, nors := range []bool{false, true} {
+			f(SweepCase{Cfg{Ctor: 0, NoRS: nors, TF: smf.MetricTicks(r)}, al, base, "resolution", r})
+		}
+	}
+	if part == 0 {
+		for _, fps := range []uint8{24, 25, 29, 30} {
+			for sub := 0; sub < 256; sub++ {
+				f(SweepCase{Cfg{Ctor: 1, TF: smf.TimeCode{FramesPerSecond: fps, SubFrames: uint8(sub)}}, al, base, "smpte", fmt.Sprintf("%d/%d", fps, sub)})
+			}
+		}
+	}
+	if part == 1%parts {
+		bounds := []uint64{0, 1, 127, 128, 16383, 16384, 2097151, 2097152, 0x0FFFFFFF, 0x10000000, 0x7FFFFFFF, 0x80000000, 0xFFFFFFFF}
+		seen := map[uint32]bool{}
+		for _, b := range bounds {
+			for _, off := range []int64{-1, 0, 1} {
+				v := int64(b) + off
+				if v < 0 || uint64(v) > maxDelta || seen[uint32(v)] {
+					continue
+				}
+				seen[uint32(v)] = true
+				for _, pos := range []int{0, 1, 2} {
+					ops := []Op{{Kind: OpAdd, D: 3, M1: 0}, {Kind: OpAdd, D: 4, M1: 1}, {Kind: OpClose, D: 5}, {Kind: OpSMFAdd}}
+					ops[pos].D = uint32(v)
+					for _, nors := range []bool{false, true} {
+						f(SweepCase{Cfg{Ctor: 0, NoRS: nors, TF: smf.MetricTicks(480)}, al, ops, "delta", v})
+					}
+				}
+			}
+		}
+	}
+	var lens []int
+	for i := 0; i <= 300; i++ {
+		lens = append(lens, i)
+	}
+	for _, b := range []int{4096, 8192, 12288, 16384, 65536, 2097152} {
+		lens = append(lens, b-2, b-1, b, b+1)
+	}
+	lens = append(lens, 5000, 20000)
+	for li := part; li < len(lens); li += parts {
+		n := lens[li]
+		p := make([]byte, n)
+		for j := range p {
+			p[j] = byte(j*7+1) & 0x7F
+		}
+		alx := []Msg{
+			{"TextN", smf.MetaText(string(p))},
+			{"SysExN", smf.Message(midi.SysEx(p))},
+			{"EscapeN", smf.Message(append([]byte{0xF7}, p...))},
+			{"UndefN", smf.MetaUndefined(0x60, p)},
+			{"NoteOn", midi.NoteOn(2, 1, 2)},
+		}
+		for m := 0; m < 4; m++ {
+			// the long message followed by more events and by a second track
+			ops := []Op{{Kind: OpAdd, D: 0, M1: 4}, {Kind: OpAdd, D: 1, M1: m}, {Kind: OpAdd, D: 0, M1: 4}, {Kind: OpSMFAdd}, {Kind: OpAdd, D: 7, M1: 4}, {Kind: OpSMFAdd}}
+			f(SweepCase{Cfg{Ctor: 0, TF: smf.MetricTicks(960)}, alx, ops, "payload-len", n})
+		}
+	}
 }
